@@ -4,8 +4,10 @@ Spec: specs/Solvers.tla (+ lib/MatQ.tla).  TLC runs CGLS / PCGLS as a state mach
 r = b - Ax, s = P^-T(A^T r - shift x), orthogonality of the residuals, finite termination and the shifted normal
 equations at termination; it verifies the KKT / fixed-point identity of the constructed proximal-gradient problems,
 the projection / proximal characterisations on a lattice, the stationary points of the Levenberg-Marquardt problems
-and the sign relation of the SciPy wrappers.  Every problem is emitted with its exact rational answers; this module
-runs the real solvers on them.
+and the sign relation of the SciPy wrappers; kind "seq" is a small state machine (actions Solve / SetOp) for ONE solver object
+used for a sequence of public operations: the end point expected from a Solve depends only on the operands the object holds at
+that moment.  Every problem / behaviour is emitted with its exact rational answers; this module runs the real solvers on them
+(the wrappers against SciPy called directly, for default and non-default documented keyword arguments).
 """
 META = {
     "claimed": True,
@@ -24,7 +26,13 @@ META = {
              "A(.,1)/A(.,2) are applied to), final solutions in matrix and function form, iteration counts, FISTA/ISTA and LM end "
              "points against x* (proximal map = ProjectBox / RegularizedGaussian box preset with the spec's possibly infinite "
              "bounds), projections/prox exactly (ProjectBox with bounds omitted / None / float / ndarray / list, positional and "
-             "keyword, and the RegularizedGaussian presets), wrappers against SciPy called directly."),
+             "keyword, and the RegularizedGaussian presets), wrappers against SciPy called directly (fmin_l_bfgs_b / minimize / "
+             "least_squares) for default and non-default documented keyword arguments (factr, pgtol, m, maxiter, maxfun, maxls, "
+             "bounds, epsilon; tol, options, bounds; loss, tol, maxit) on quadratic and non-quadratic objectives.  Sequences: the "
+             "spec's Solve / SetOp machine (reassign ONE public operand between solves; named deviation StaleCachedOperand = a "
+             "cached A^T b that a new A does not clear) is replayed on one CGLS / PCGLS / FISTA / LM / L_BFGS_B / minimize / "
+             "maximize / LS object: every solve must return the point for the operands held NOW, agree with a fresh object / "
+             "direct SciPy call, repeat itself on an unchanged object and leave its operands untouched (deep fingerprints)."),
     "note": ("Bounded sizes (n <= 3). Problems whose exact CG iterates exceed TLC's 32-bit integers are followed up to that point "
              "and then compared through their exact solution only (status 'abandoned' in the emitted case). FISTA/LM tolerances are "
              "derived from the solvers' own stopping rules (abstol/(t mu), gradtol |g0|)."),
@@ -66,7 +74,7 @@ def _solver_mod():
     except Exception as e:  # pragma: no cover
         raise MachineryError("cannot import cuqi.solver._solver: %r" % e)
     for name in ("CGLS", "PCGLS", "FISTA", "LM", "L_BFGS_B", "minimize", "maximize", "LS", "ProjectNonnegative",
-                 "ProjectBox", "ProximalL1", "fmin_l_bfgs_b"):
+                 "ProjectBox", "ProximalL1"):
         if not hasattr(S, name):
             raise MachineryError("cuqi.solver._solver.%s disappeared" % name)
     return S
@@ -431,111 +439,175 @@ def _call(fn):
                 return None, e
 
 
-def check_wrap(ctx, S, c):
-    import scipy.optimize as opt
-    a = np.array(c["a"], dtype=float)
-    cc = np.array(c["c"], dtype=float)
-    x0 = np.array(c["x0"], dtype=float)
-    sense, sign = c["sense"], c["sign"]
-    w, method = c["wrapper"], c["method"]
-    f = lambda x: sense * 0.5 * float(np.sum(a * (x - cc) ** 2))
-    g = lambda x: sense * a * (x - cc)
-    sig = "wrap/%s/method=%s/grad=%d" % (w, method, 1 if c["grad"] else 0)
-    ctx.case(("wrap", w, method, c["a"], c["c"], c["x0"], c["grad"]), facet="wrap/" + w)
-    if w in ("minimize", "maximize"):
-        me = None if method == "default" else method
-        cls = getattr(S, w)
-        got, e1 = _call(lambda: cls(f, x0.copy(), gradfunc=g if c["grad"] else None, method=me).solve())
-        ref, e2 = _call(lambda: opt.minimize(lambda x: sign * f(x), x0.copy(),
-                                             jac=(lambda x: sign * g(x)) if c["grad"] else None, method=me))
-        if e2 is not None:
-            # SciPy itself refuses these arguments; the wrapper has to pass that on
-            if e1 is None:
-                ctx.mismatch(sig + "/no_error", c, "SciPy raises for these arguments but the wrapper returns", repr(e2), got)
-            return
-        if e1 is not None:
-            ctx.mismatch(sig + "/wrapper_raises/" + type(e1).__name__, c,
-                         "SciPy returns a result for a documented method but the wrapper raises %r" % (e1,),
-                         expected={k: repr(ref.get(v)) for k, v in c["info"].items()}, observed=repr(e1))
-            return
-        sol, info = got
-        if not _same(np.asarray(sol), ref["x"]):
-            ctx.mismatch(sig + "/solution", c, "wrapper does not return SciPy's solution for the objective %s" %
-                         ("-f" if sign < 0 else "f"), ref["x"], sol)
-        for k, v in c["info"].items():
-            if v in ref and (k not in info or not _same(info[k], ref[v])):
-                ctx.mismatch(sig + "/info/" + k, c, "info[%r] is not SciPy's %r" % (k, v), ref[v], info.get(k, "<missing>"))
-        if ref["success"] and not np.allclose(np.asarray(sol, float), cc, atol=1e-3):
-            ctx.mismatch(sig + "/optimum", c, "returned point is not the %s of the user's function" %
-                         ("maximiser" if sense < 0 else "minimiser"), cc, sol)
-    elif w == "LS":
+def _kwval(v):
+    """a keyword value of the spec's option tables: Sci(m, e) = m * 10^e, IntV, StrV, BoxV (one (lo, up) per component), DictV"""
+    t = v["t"]
+    if t == "sci":
+        return float(Fraction(v["m"]) * Fraction(10) ** int(v["e"]))
+    if t == "int":
+        return int(v["n"])
+    if t == "str":
+        return str(v["s"])
+    if t == "bounds":
+        return [(_q(lo), _q(up)) for lo, up in zip(v["lo"], v["up"])]
+    if t == "dict":
+        return {i["k"]: _kwval(i["v"]) for i in v["items"]}
+    from cuqiverif.core import MachineryError
+    raise MachineryError("unknown keyword value %r in the spec's option table" % (v,))
+
+
+def _kwargs(kw):
+    """fresh python objects at every call (the wrapper and the reference never share a mutable argument)"""
+    return {i["k"]: _kwval(i["v"]) for i in kw}
+
+
+def _objective(fn, sense):
+    """fn = {obj, a, c} of the spec.  Returns the user's f, its gradient g, the residual r and Jacobian J (f = sense 1/2 |r|^2)
+    and the optimum c."""
+    a = np.array(fn["a"], dtype=float)
+    cc = np.array(fn["c"], dtype=float)
+    if fn["obj"] == "quad":
         sq = np.sqrt(a)
+        f = lambda x: sense * 0.5 * float(np.sum(a * (x - cc) ** 2))
+        g = lambda x: sense * a * (x - cc)
         r = lambda x: sq * (x - cc)
         J = lambda x: np.diag(sq)
-        got, e1 = _call(lambda: S.LS(r, x0.copy(), jacfun=J if c["grad"] else None, method=method, loss="linear",
-                                     tol=1e-9, maxit=500).solve())
-        ref, e2 = _call(lambda: opt.least_squares(r, x0.copy(), jac=J if c["grad"] else "2-point", method=method, loss="linear",
-                                                  xtol=1e-9, max_nfev=500))
-        if e2 is not None:
-            if e1 is None:
-                ctx.mismatch(sig + "/no_error", c, "SciPy raises for these arguments but the wrapper returns", repr(e2), got)
-            return
-        if e1 is not None:
-            ctx.mismatch(sig + "/wrapper_raises/" + type(e1).__name__, c,
-                         "SciPy returns a result (jacfun=None is documented as 'the solver approximates the Jacobian') but "
-                         "the wrapper raises %r" % (e1,), expected=ref["x"], observed=repr(e1))
-            return
-        sol, info = got
-        if not _same(np.asarray(sol), ref["x"]):
-            ctx.mismatch(sig + "/solution", c, "LS does not return SciPy's solution", ref["x"], sol)
+    elif fn["obj"] == "para":
+        pa, pd = float(a[0]), float(a[1])
+        r = lambda x: np.array([x[0] - pa, pd * (x[1] - x[0] ** 2)])
+        J = lambda x: np.array([[1.0, 0.0], [-2 * pd * x[0], pd]])
+        f = lambda x: sense * 0.5 * float(np.sum(r(x) ** 2))
+        g = lambda x: sense * (J(x).T @ r(x))
+    else:
+        from cuqiverif.core import MachineryError
+        raise MachineryError("unknown objective %r" % (fn,))
+    return {"f": f, "g": g, "r": r, "J": J, "c": cc}
+
+
+def _wrap_new(S, w, ob, x0, grad, method, kw):
+    """the wrapper object for the user's problem (constructor arguments as documented)"""
+    me = None if method == "default" else method
+    if w in ("minimize", "maximize"):
+        return getattr(S, w)(ob["f"], x0, gradfunc=ob["g"] if grad else None, method=me, **kw)
+    if w == "LS":
+        return S.LS(ob["r"], x0, jacfun=ob["J"] if grad else None, method=method, loss=kw["loss"], tol=kw["tol"], maxit=kw["maxit"])
+    return S.L_BFGS_B(ob["f"], x0, gradfunc=ob["g"] if grad else None, **kw)
+
+
+def _wrap_reference(w, ob, sign, x0, grad, method, kw):
+    """SciPy called directly: the documented target of the wrapper with the same arguments (LS: renamed by the spec's
+    LsArgMap; maximize: the objective and its gradient multiplied by sign = -1)"""
+    import scipy.optimize as opt
+    me = None if method == "default" else method
+    f, g = ob["f"], ob["g"]
+    if w in ("minimize", "maximize"):
+        return opt.minimize(lambda x: sign * f(x), x0, jac=(lambda x: sign * g(x)) if grad else None, method=me, **kw)
+    if w == "LS":
+        return opt.least_squares(ob["r"], x0, jac=ob["J"] if grad else "2-point", method=method, loss=kw["loss"],
+                                 xtol=kw["tol"], max_nfev=kw["maxit"])
+    return opt.fmin_l_bfgs_b(f, x0, fprime=g if grad else None, approx_grad=0 if grad else 1, **kw)
+
+
+def _wrap_compare(ctx, c, sig, w, got, e1, ref, e2, cc, sense):
+    """the wrapper's (solution, info) against SciPy's own result; c carries the spec's tables info / warn"""
+    if e2 is not None:
+        # SciPy itself refuses these arguments; the wrapper has to pass that on
+        if e1 is None:
+            ctx.mismatch(sig + "/no_error", c, "SciPy raises for these arguments but the wrapper returns", repr(e2), got)
+        return
+    if e1 is not None:
+        ctx.mismatch(sig + "/wrapper_raises/" + type(e1).__name__, c,
+                     "SciPy returns a result for documented arguments but the wrapper raises %r" % (e1,),
+                     expected=ref[0] if w == "L_BFGS_B" else ref["x"], observed=repr(e1))
+        return
+    sol, info = got
+    if w == "L_BFGS_B":
+        _lbfgs_compare(ctx, c, sig, sol, info, ref)
+        refx, ok = ref[0], int(ref[2]["warnflag"]) == 0
+    else:
+        refx, ok = ref["x"], bool(ref["success"])
+        if not _same(np.asarray(sol), refx):
+            ctx.mismatch(sig + "/solution", c, "wrapper does not return SciPy's solution%s" %
+                         (" for the objective -f" if w == "maximize" else ""), refx, sol)
         for k, v in c["info"].items():
-            if not isinstance(info, dict) or k not in info:
+            if w == "LS" and (not isinstance(info, dict) or k not in info):
                 # LS.solve documents "optimization information (dictionary)" without naming its keys
                 ctx.observations.setdefault("LS_info_keys_absent", {})[k] = v
-            elif not _same(info[k], ref[v]):
-                ctx.mismatch(sig + "/info/" + k, c, "info[%r] is not SciPy's %r" % (k, v), ref[v], info[k])
-        if not np.allclose(np.asarray(sol, float), cc, atol=1e-5):
-            ctx.mismatch(sig + "/optimum", c, "returned point is not the least-squares solution", cc, sol)
-    elif w == "L_BFGS_B":
-        kw = {"maxiter": 50, "pgtol": 1e-10}
-        got, e1 = _call(lambda: S.L_BFGS_B(f, x0.copy(), gradfunc=g if c["grad"] else None, **kw).solve())
-        ref, e2 = _call(lambda: opt.fmin_l_bfgs_b(f, x0.copy(), fprime=g if c["grad"] else None,
-                                                  approx_grad=0 if c["grad"] else 1, **kw))
-        if e1 is not None or e2 is not None:
-            ctx.mismatch(sig + "/raises", c, "L_BFGS_B wrapper / SciPy raised", repr(e2), repr(e1))
-            return
-        sol, info = got
-        _lbfgs_compare(ctx, c, sig, sol, info, ref)
-        if not np.allclose(np.asarray(sol, float), cc, atol=1e-4):
-            ctx.mismatch(sig + "/optimum", c, "returned point is not the minimiser", cc, sol)
-        # scripted raw results: every warnflag class of the spec's table, and the arguments handed to SciPy
-        real = S.fmin_l_bfgs_b
-        for wf in (0, 1, 2):
-            seen = {}
+            elif v in ref and (k not in info or not _same(info[k], ref[v])):
+                ctx.mismatch(sig + "/info/" + k, c, "info[%r] is not SciPy's %r" % (k, v), ref[v], info.get(k, "<missing>"))
+    # the spec's optimum: asserted where SciPy itself reports convergence and is there (not with few iterations / active bounds)
+    atol = 1e-5 if w == "LS" else (1e-4 if w == "L_BFGS_B" else 1e-3)
+    if ok and np.allclose(np.asarray(refx, float), cc, atol=atol):
+        ctx.observations["wrap_reference_at_optimum"] = ctx.observations.get("wrap_reference_at_optimum", 0) + 1
+        if not np.allclose(np.asarray(sol, float), cc, atol=atol):
+            ctx.mismatch(sig + "/optimum", c, "returned point is not the %s of the user's function" %
+                         ("maximiser" if sense < 0 else "minimiser"), cc, sol)
 
-            def stub(func, x0_, fprime=None, approx_grad=0, **kwargs):
-                seen.update(func=func, x0=x0_, fprime=fprime, approx_grad=approx_grad, kwargs=kwargs)
-                return (np.array([0.25, -1.5]), 0.125, {"grad": np.array([1.0, 2.0]), "task": "ABNORMAL_TERMINATION_IN_LNSRCH",
-                                                        "funcalls": 21, "nit": 7, "warnflag": wf})
-            S.fmin_l_bfgs_b = stub
-            try:
-                got, e1 = _call(lambda: S.L_BFGS_B(f, x0.copy(), gradfunc=g if c["grad"] else None, maxiter=7).solve())
-            finally:
-                S.fmin_l_bfgs_b = real
-            ctx.case(("wrap", "L_BFGS_B", "stub", wf, c["grad"], c["c"], c["x0"]), facet="wrap/L_BFGS_B/stub")
-            if e1 is not None:
-                ctx.mismatch(sig + "/stub/raises", c, "L_BFGS_B raised %r on a scripted SciPy result" % (e1,))
-                continue
-            sol, info = got
-            seen_call = dict(seen)
-            raw = stub(None, None)
-            seen = seen_call
-            _lbfgs_compare(ctx, dict(c, warnflag=wf), sig + "/stub/warnflag=%d" % wf, sol, info, raw)
-            okargs = _lbfgs_args_ok(seen, f, g if c["grad"] else None, x0, {"maxiter": 7})
-            if not okargs:
-                ctx.mismatch(sig + "/stub/arguments", c, "SciPy is not asked to minimise func from x0 with the user's gradient "
-                             "(approximated when gradfunc is None) and the user's keyword arguments",
-                             observed={k: repr(v) for k, v in seen.items()})
+
+def _wrap_sig(c):
+    w = c["wrapper"]
+    sig = "wrap/%s/method=%s/grad=%d" % (w, c["method"], 1 if c["grad"] else 0)
+    if c["obj"] != "quad":
+        sig += "/obj=" + c["obj"]
+    if c["opt"] != ("default" if w in ("minimize", "maximize") else "tight"):
+        sig += "/opt=" + c["opt"]
+    return sig
+
+
+def check_wrap(ctx, S, c):
+    x0 = np.array(c["x0"], dtype=float)
+    sense, sign = c["sense"], c["sign"]
+    w, method, grad = c["wrapper"], c["method"], bool(c["grad"])
+    ob = _objective(c, sense)
+    cc = ob["c"]
+    sig = _wrap_sig(c)
+    ctx.case(("wrap", w, method, c["obj"], c["a"], c["c"], c["x0"], c["grad"], c["opt"]), facet="wrap/%s/%s" % (w, c["opt"]))
+    got, e1 = _call(lambda: _wrap_new(S, w, ob, x0.copy(), grad, method, _kwargs(c["kw"])).solve())
+    ref, e2 = _call(lambda: _wrap_reference(w, ob, sign, x0.copy(), grad, method, _kwargs(c["kw"])))
+    _wrap_compare(ctx, c, sig, w, got, e1, ref, e2, cc, sense)
+    if w == "L_BFGS_B" and c["opt"] == "tight" and c["obj"] == "quad":
+        _lbfgs_scripted(ctx, S, c, sig, ob, x0)
+
+
+def _lbfgs_scripted(ctx, S, c, sig, ob, x0):
+    """Scripted raw results (every warnflag class of the spec's table) and the arguments handed over, observed at the name
+    `fmin_l_bfgs_b` of the module.  How the wrapper reaches SciPy is not part of the property: when that name is gone or is
+    not what the wrapper calls, this is recorded as an observation and the behavioural comparison above stands alone."""
+    f, g = ob["f"], (ob["g"] if c["grad"] else None)
+    real = getattr(S, "fmin_l_bfgs_b", None)
+    if real is None:
+        ctx.observe("L_BFGS_B_routing", "cuqi.solver._solver has no attribute fmin_l_bfgs_b: scripted warnflag classes not exercised")
+        return
+    for wf in (0, 1, 2):
+        seen = {}
+
+        def stub(func, x0_, fprime=None, approx_grad=0, **kwargs):
+            seen.update(func=func, x0=x0_, fprime=fprime, approx_grad=approx_grad, kwargs=kwargs)
+            return (np.array([0.25, -1.5]), 0.125, {"grad": np.array([1.0, 2.0]), "task": "ABNORMAL_TERMINATION_IN_LNSRCH",
+                                                    "funcalls": 21, "nit": 7, "warnflag": wf})
+        S.fmin_l_bfgs_b = stub
+        try:
+            got, e1 = _call(lambda: S.L_BFGS_B(f, x0.copy(), gradfunc=g, maxiter=7).solve())
+        finally:
+            S.fmin_l_bfgs_b = real
+        if not seen:
+            ctx.observe("L_BFGS_B_routing", "L_BFGS_B.solve does not call cuqi.solver._solver.fmin_l_bfgs_b: scripted warnflag "
+                                            "classes not exercised")
+            return
+        ctx.case(("wrap", "L_BFGS_B", "stub", wf, c["grad"], c["c"], c["x0"]), facet="wrap/L_BFGS_B/stub")
+        if e1 is not None:
+            ctx.mismatch(sig + "/stub/raises", c, "L_BFGS_B raised %r on a scripted SciPy result" % (e1,))
+            continue
+        sol, info = got
+        seen_call = dict(seen)
+        raw = stub(None, None)
+        seen = seen_call
+        _lbfgs_compare(ctx, dict(c, warnflag=wf), sig + "/stub/warnflag=%d" % wf, sol, info, raw)
+        okargs = _lbfgs_args_ok(seen, f, g, x0, {"maxiter": 7})
+        if not okargs:
+            ctx.mismatch(sig + "/stub/arguments", c, "SciPy is not asked to minimise func from x0 with the user's gradient "
+                         "(approximated when gradfunc is None) and the user's keyword arguments",
+                         observed={k: repr(v) for k, v in seen.items()})
 
 
 def _lbfgs_args_ok(seen, f, g, x0, kwargs):
@@ -590,13 +662,270 @@ def _lbfgs_compare(ctx, c, sig, sol, info, raw):
 
 
 # ----------------------------------------------------------------------------------------------------------
+# sequences of public operations on ONE solver object (kind "seq")
+SEQ_ABSTOL = 1e-8       # FISTA / ISTA stopping tolerance of the sequence objects
+
+
+def _fp(v):
+    """deep fingerprint of an operand: shape, dtype and bytes of arrays (also inside lists / dicts / sparse matrices / the
+    matrix behind a forward-adjoint callable); callables themselves count as opaque"""
+    import scipy.sparse as spa
+    if hasattr(v, "_c16_matrix"):
+        return ("op", _fp(v._c16_matrix))
+    if spa.issparse(v):
+        return ("sparse", v.shape, _fp(v.toarray()))
+    if isinstance(v, np.ndarray):
+        return ("nd", v.shape, str(v.dtype), v.tobytes())
+    if isinstance(v, dict):
+        return ("dict", tuple((k, _fp(v[k])) for k in sorted(v)))
+    if isinstance(v, (list, tuple)):
+        return (type(v).__name__, tuple(_fp(t) for t in v))
+    if callable(v):
+        return ("callable",)
+    return ("scalar", repr(v))
+
+
+def _op_form(A, form):
+    """the operand A as the matrix itself or as the forward / adjoint callable around it"""
+    if form == "matrix":
+        return A
+
+    def Aop(v, flag):
+        if flag == 1:
+            return A @ v
+        if flag == 2:
+            return A.T @ v
+        raise ValueError("operator called with flag %r" % (flag,))
+    Aop._c16_matrix = A
+    return Aop
+
+
+def _seq_value(S, fam, field, o, var):
+    """python value of the public operand `field` for the spec's operand record o (var: form / proximal variant)"""
+    if fam in ("cgls", "pcgls", "fista") and field == "A":
+        return _op_form(np.array(o["A"], dtype=float), var["form"])
+    if field in ("b", "x0") and fam in ("cgls", "pcgls", "fista"):
+        return np.array(o[field], dtype=float)
+    if fam in ("cgls", "pcgls"):
+        if field == "P":
+            import scipy.sparse as spa
+            return spa.csc_matrix(np.array(o["P"], dtype=float))
+        return {"shift": lambda: o["shift"], "maxit": lambda: int(o["maxit"]), "tol": lambda: 10.0 ** (-o["tol"])}[field]()
+    if fam == "fista":
+        if field == "proximal":
+            return _prox_of(S, dict(o["proximal"], n=2), var["prox"])[0]
+        return {"stepsize": lambda: _q(o["stepsize"]), "adaptive": lambda: bool(o["adaptive"]), "maxit": lambda: int(o["maxit"])}[field]()
+    if fam == "lm":
+        if field == "A":
+            return _lm_funcs(o["A"])[0]
+        if field == "jacfun":
+            return _lm_funcs(o["A"])[1]
+        return _qv(o["x0"]) if field == "x0" else int(o["maxit"])
+    # SciPy wrappers
+    sense = -1 if fam == "maximize" else 1
+    if field == "x0":
+        return np.array(o["x0"], dtype=float)
+    ob = _objective(o["func"], sense)
+    if field == "func":
+        return ob["r"] if fam == "LS" else ob["f"]
+    if field == "gradfunc":
+        return ob["g"] if o["gradfunc"] else None
+    if field == "jacfun":
+        return ob["J"] if o["jacfun"] else None
+    if field == "method":
+        return None if o["method"] == "default" else o["method"]
+    if field == "kwargs":
+        return _kwargs(o["kwargs"]["kw"])
+    return {"loss": lambda: str(o["loss"]), "tol": lambda: 10.0 ** (-o["tol"]), "maxit": lambda: int(o["maxit"])}[field]()
+
+
+_SEQ_OPERANDS = {"cgls": ("A", "b", "x0", "shift", "maxit", "tol"), "pcgls": ("A", "b", "x0", "P", "maxit", "tol", "shift"),
+                 "fista": ("A", "b", "x0", "proximal", "maxit", "stepsize", "adaptive"), "lm": ("A", "x0", "jacfun", "maxit"),
+                 "L_BFGS_B": ("func", "x0", "gradfunc", "kwargs"), "minimize": ("func", "x0", "gradfunc", "method", "kwargs"),
+                 "maximize": ("func", "x0", "gradfunc", "method", "kwargs"),
+                 "LS": ("func", "x0", "jacfun", "method", "loss", "tol", "maxit")}
+
+
+def _seq_new(S, fam, vals):
+    """a freshly constructed solver for the operand values (documented constructor signatures)"""
+    v = vals
+    if fam == "cgls":
+        return S.CGLS(v["A"], v["b"], v["x0"], v["maxit"], v["tol"], v["shift"])
+    if fam == "pcgls":
+        return S.PCGLS(v["A"], v["b"], v["x0"], v["P"], v["maxit"], v["tol"], v["shift"])
+    if fam == "fista":
+        return S.FISTA(v["A"], v["b"], v["x0"], v["proximal"], maxit=v["maxit"], stepsize=v["stepsize"], abstol=SEQ_ABSTOL,
+                       adaptive=v["adaptive"])
+    if fam == "lm":
+        return S.LM(v["A"], v["x0"], v["jacfun"], maxit=v["maxit"], tol=1e-6, gradtol=1e-8, sparse=False)
+    if fam == "L_BFGS_B":
+        return S.L_BFGS_B(v["func"], v["x0"], gradfunc=v["gradfunc"], **v["kwargs"])
+    if fam in ("minimize", "maximize"):
+        return getattr(S, fam)(v["func"], v["x0"], gradfunc=v["gradfunc"], method=v["method"], **v["kwargs"])
+    return S.LS(v["func"], v["x0"], jacfun=v["jacfun"], method=v["method"], loss=v["loss"], tol=v["tol"], maxit=v["maxit"])
+
+
+def _seq_values(S, fam, o, var):
+    return {f: _seq_value(S, fam, f, o, var) for f in _SEQ_OPERANDS[fam]}
+
+
+def _seq_ctx(events, i):
+    """what happened to the object before the solve at position i: first (nothing), presetX (reassigned before the first solve),
+    setX (reassigned since the last solve), repeat (solved before, nothing reassigned since)"""
+    solves = [j for j in range(i) if events[j]["act"] == "solve"]
+    since = [e["field"] for e in events[(solves[-1] + 1 if solves else 0):i] if e["act"] == "set"]
+    if not solves:
+        return "first" if not since else "preset" + "+".join(since)
+    return "repeat" if not since else "set" + "+".join(since)
+
+
+def _seq_variants(fam, idx):
+    if fam in ("cgls", "pcgls"):
+        return [{"form": "matrix"}, {"form": "function"}]
+    if fam == "fista":
+        return [{"form": "matrix", "prox": idx % 3}, {"form": "function", "prox": (idx + 1) % 3}]
+    return [{}]
+
+
+def _seq_tag(fam, o, var):
+    """the part of a signature that identifies the call site: operator form and the discrete operands"""
+    if fam in ("cgls", "pcgls"):
+        return "form=%s/shift=%d/m=%d" % (var["form"], o["shift"], len(o["A"]))
+    if fam == "fista":
+        return "form=%s/adaptive=%d/prox=%s" % (var["form"], 1 if o["adaptive"] else 0, o["proximal"]["h"])
+    if fam == "lm":
+        return "fam=%s" % o["A"]["fam"]
+    if fam == "LS":
+        return "method=%s/grad=%d/loss=%s" % (o["method"], 1 if o["jacfun"] else 0, o["loss"])
+    tag = "grad=%d/kwargs=%s" % (1 if o["gradfunc"] else 0, o["kwargs"]["name"])
+    return tag if fam == "L_BFGS_B" else "method=%s/%s" % (o["method"], tag)
+
+
+def _seq_solve(fam, solver):
+    with warnings.catch_warnings():
+        warnings.simplefilter("ignore")
+        with np.errstate(all="ignore"), contextlib.redirect_stdout(io.StringIO()):
+            try:
+                return solver.solve(), None
+            except Exception as e:
+                return None, e
+
+
+def _seq_tol(fam, o, ev):
+    """comparison tolerance for the end point, derived from the stopping rule of the solver (never tighter)"""
+    if fam in ("cgls", "pcgls"):
+        return CG_CMP, True                                   # relative to max(1, |x|_inf), as for kind cg
+    if fam == "fista":
+        A = np.array(o["A"], dtype=float)
+        mu = float(np.linalg.eigvalsh(A.T @ A)[0])
+        return 10 * SEQ_ABSTOL / (_q(o["stepsize"]) * mu) + 1e-12, False
+    ng0 = float(np.linalg.norm(_qv(ev["g0"])))
+    return 1e-9 + 100 * 1e-8 * ng0, False
+
+
+def _seq_near(x, pts, tol, rel):
+    x = np.asarray(x, dtype=float)
+    if x.shape != np.shape(pts[0]) or not np.all(np.isfinite(x)):
+        return False
+    if rel:
+        return any(_close(x, p, tol) for p in pts)
+    return min(float(np.linalg.norm(x - p)) for p in pts) <= tol
+
+
+def check_seq(ctx, S, c, idx=0):
+    fam, events = c["fam"], c["events"]
+    iterative = fam in ("cgls", "pcgls", "fista", "lm")
+    sense = c["sense"]
+    for var in _seq_variants(fam, idx):
+        if _over_budget(ctx, "seq/%s/" % fam, 40):
+            return
+        held = _seq_values(S, fam, c["ops"], var)            # the very objects the solver is given
+        try:
+            solver = _seq_new(S, fam, held)
+        except Exception as e:
+            ctx.mismatch("seq/%s/construct/%s/raises" % (fam, _seq_tag(fam, c["ops"], var)), c, "constructor raised %r" % (e,))
+            continue
+        last = None                                            # (operands, result) of the previous solve
+        for i, ev in enumerate(events):
+            o = ev["ops"]
+            if ev["act"] == "set":
+                f = ev["field"]
+                val = _seq_value(S, fam, f, o, var)
+                try:
+                    setattr(solver, f, val)
+                except Exception as e:
+                    # a refused assignment is acceptable: nothing further is asserted about this object
+                    ctx.observations.setdefault("seq_refused_assignments", {})["%s.%s" % (fam, f)] = repr(e)
+                    break
+                held[f] = val
+                if fam == "lm" and f == "A":
+                    held["jacfun"] = _seq_value(S, fam, "jacfun", o, var)      # unchanged for the lin family (same B)
+                continue
+            where = _seq_ctx(events, i)
+            base = "seq/%s/%s/%s" % (fam, where, _seq_tag(fam, o, var))
+            ctx.case(("seq", fam, sorted(var.items()), c["ops"], [(e["act"], e["field"], e["ops"]) for e in events[:i + 1]]),
+                     nontrivial=where != "first", facet="seq/%s/%s" % (fam, where.split("+")[0]))
+            before = {k: _fp(v) for k, v in held.items()}
+            got, err = _seq_solve(fam, solver)
+            after = {k: _fp(v) for k, v in held.items()}
+            # a freshly constructed object on copies of the current operands
+            fresh, ferr = None, None
+            if iterative:
+                fresh_vals = _seq_values(S, fam, o, var)
+                fresh, ferr = _call(lambda: _seq_new(S, fam, fresh_vals).solve())
+            for k in sorted(before):
+                if before[k] != after[k]:
+                    ctx.mismatch(base + "/mutates/" + k, c, "solve() changed the operand %r it was given (deep fingerprint of the "
+                                 "user's object before / after the call differs)" % k, observed=held[k] if not callable(held[k]) else None)
+            if iterative:
+                if err is not None:
+                    if ferr is None:
+                        ctx.mismatch(base + "/raises", c, "solve() raised %r after this sequence of operations; a new object with the same "
+                                     "operands returns" % (err,), expected=fresh[0], observed=repr(err))
+                    last = None
+                    continue
+                x = np.asarray(got[0], dtype=float)
+                tol, rel = _seq_tol(fam, o, ev)
+                exp = [_qv(p) for p in ev["exp"]]
+                if fam in ("cgls", "pcgls", "fista") and int(got[1]) > int(o["maxit"]):
+                    ctx.mismatch(base + "/itercount", c, "more iterations than the maxit the object holds", "<= %d" % o["maxit"], int(got[1]))
+                if exp and not _seq_near(x, exp, tol, rel):
+                    ctx.mismatch(base + "/solution", c, "the point returned after this sequence of operations is not the solution for the "
+                                 "operands the object holds NOW (spec: SeqExpected depends on the current operands only)",
+                                 expected=exp, observed=x, detail={"tol": tol, "events": [(e["act"], e["field"]) for e in events[:i + 1]]})
+                elif ferr is None and exp and not _seq_near(x, [np.asarray(fresh[0], dtype=float)], 2 * tol, rel):
+                    ctx.mismatch(base + "/fresh", c, "a freshly constructed solver with the same operands returns another point",
+                                 expected=fresh[0], observed=x)
+                if last is not None and last[0] == o and exp:
+                    if not _seq_near(x, [last[1]], 2 * tol, rel):
+                        ctx.mismatch(base + "/repeat", c, "solve() on the unchanged object returns another point than the call before",
+                                     expected=last[1], observed=x)
+                    elif not np.array_equal(x, last[1]):
+                        ctx.observations["seq_repeat_not_bitwise"] = ctx.observations.get("seq_repeat_not_bitwise", 0) + 1
+                last = (o, x)
+            else:
+                # SciPy wrappers: the reference is SciPy called directly with the operands the object holds now
+                ob = _objective(o["func"], sense)
+                grad = bool(o["jacfun"] if fam == "LS" else o["gradfunc"])
+                kw = (lambda: {k: _seq_value(S, fam, k, o, var) for k in ("loss", "tol", "maxit")}) if fam == "LS" else \
+                     (lambda: _kwargs(o["kwargs"]["kw"]))
+                ref, e2 = _call(lambda: _wrap_reference(fam, ob, -1 if fam == "maximize" else 1, np.array(o["x0"], dtype=float), grad,
+                                                        o.get("method", "default"), kw()))
+                _wrap_compare(ctx, c, base, fam, got, err, ref, e2, ob["c"], sense)
+                if err is None and last is not None and last[0] == o and not _same(np.asarray(got[0]), np.asarray(last[1])):
+                    ctx.mismatch(base + "/repeat", c, "solve() on the unchanged object returns another point than the call before",
+                                 expected=last[1], observed=got[0])
+                last = (o, np.asarray(got[0]).copy()) if err is None else None
+
+
+# ----------------------------------------------------------------------------------------------------------
 def _dispatch(ctx, S, cases, thorough):
     sib = {}
     for c in cases:
         if c["kind"] == "cg" and c["shift"] == 0:
             sib[_cg_key(c)] = c
     counts = {}
-    kidx = 0
+    kidx = sidx = 0
     for c in cases:
         k = c["kind"]
         counts[k] = counts.get(k, 0) + 1
@@ -611,7 +940,47 @@ def _dispatch(ctx, S, cases, thorough):
             check_lm(ctx, S, c)
         elif k == "wrap":
             check_wrap(ctx, S, c)
+        elif k == "seq":
+            check_seq(ctx, S, c, sidx)
+            sidx += 1
     return counts
+
+
+def _vacuity(ctx, cases):
+    """the sequence facets and the non-default keyword arguments must really have been exercised"""
+    from cuqiverif.core import MachineryError
+    need = {"cgls": ("A", "b", "x0", "shift", "maxit", "tol"), "fista": ("A", "b", "x0", "proximal", "stepsize", "adaptive", "maxit"),
+            "lm": ("A", "x0", "maxit"), "L_BFGS_B": ("func", "x0", "gradfunc", "kwargs"),
+            "minimize": ("func", "x0", "gradfunc", "method", "kwargs"), "maximize": ("x0", "method", "kwargs"),
+            "LS": ("func", "x0", "jacfun", "method", "loss", "tol", "maxit"), "pcgls": ()}
+    seen = {}
+    for c in cases:
+        if c["kind"] != "seq":
+            continue
+        ev = c["events"]
+        seen.setdefault(c["fam"], set())
+        for i, e in enumerate(ev):
+            # a reassignment BETWEEN two solves whose later solve has a specified end point
+            if e["act"] == "set" and any(x["act"] == "solve" for x in ev[:i]) and any(x["act"] == "solve" and x["exp"] for x in ev[i + 1:]):
+                seen[c["fam"]].add(e["field"])
+    for fam, fields in need.items():
+        if fam not in seen or not set(fields) <= seen[fam]:
+            raise MachineryError("Solvers emitted no solve-reassign-solve behaviour with a specified end point for %s.%s" %
+                                 (fam, sorted(set(fields) - seen.get(fam, set()))))
+    for fam in need:
+        if ctx.facets.get("seq/%s/repeat" % fam, 0) == 0:
+            raise MachineryError("no repeated solve() replayed for %s" % fam)
+    opts = {}
+    for c in cases:
+        if c["kind"] == "wrap":
+            opts.setdefault(c["wrapper"], set()).add(c["opt"])
+    for w, n in (("L_BFGS_B", 10), ("minimize", 4), ("maximize", 4), ("LS", 6)):
+        if len(opts.get(w, ())) < n:
+            raise MachineryError("wrapper %s compared with only %d keyword-argument sets" % (w, len(opts.get(w, ()))))
+    if not ctx.violations and ctx.observations.get("wrap_reference_at_optimum", 0) < 200:
+        raise MachineryError("SciPy itself reached the spec's optimum in only %d wrapper cases: the optimum facet would be vacuous" %
+                             ctx.observations.get("wrap_reference_at_optimum", 0))
+    ctx.observe("seq_reassigned_operands", {k: sorted(v) for k, v in seen.items()})
 
 
 def _sort_key(c):
@@ -623,15 +992,16 @@ def run(ctx):
     from cuqiverif import tlc as _tlc
     import concurrent.futures, os
     S = _solver_mod()
-    devs = (("PcglsIgnoresShift", "NormalEquations"), ("MaximizeDropsSign", "WrapRelation"))
+    devs = (("PcglsIgnoresShift", "NormalEquations"), ("MaximizeDropsSign", "WrapRelation"),
+            ("StaleCachedOperand", "SeqCurrentOperands"))
     wd = lambda label: os.path.join(_tlc.WORK, "Solvers-c16-%s-%d" % (label, os.getpid()))
     # the (small) deviation runs are started together with the main run: three JVM starts in sequence cost minutes on a loaded machine
-    pool = concurrent.futures.ThreadPoolExecutor(max_workers=2)
+    pool = concurrent.futures.ThreadPoolExecutor(max_workers=len(devs))
     fut = {dev: pool.submit(ctx.tlc, "Solvers", cfg="Solvers.dev_%s.cfg" % dev, workers=2, timeout=2400, expect_violation=True,
                             workdir=wd(dev)) for dev, _ in devs}
     try:
         res = ctx.tlc("Solvers", cfg="Solvers.%s.cfg" % ctx.tier, workers=16, timeout=3600, workdir=wd("main"),
-                      require_actions=["Start", "Iterate"] if ctx.tier == "thorough" else None)
+                      require_actions=["Start", "Iterate", "Solve", "SetOp"] if ctx.tier == "thorough" else None)
     except BaseException:
         concurrent.futures.wait(list(fut.values()))
         for label in ["main"] + [d for d, _ in devs]:                       # nothing of a failed run stays under .work
@@ -644,7 +1014,7 @@ def run(ctx):
         ctx.model_must_hold(res, "Solvers")
         cases = sorted(res.cases, key=_sort_key)
         kinds = set(c["kind"] for c in cases)
-        if kinds != {"cg", "prox", "kkt", "lm", "wrap"}:
+        if kinds != {"cg", "prox", "kkt", "lm", "wrap", "seq"}:
             raise MachineryError("Solvers emitted kinds %r" % sorted(kinds))
         # named deviations: the invariants that decide the property must fail when the deviation is switched on
         for dev, inv in devs:
@@ -656,25 +1026,35 @@ def run(ctx):
             _tlc.cleanup(wd(label))
     counts = _dispatch(ctx, S, cases, ctx.tier == "thorough")
     ctx.observe("cases_by_kind", counts)
-    for k in ("cg", "prox", "kkt", "lm", "wrap"):
+    _vacuity(ctx, cases)
+    for k in ("seq", "cg", "prox", "kkt", "lm", "wrap"):
         ex = [c for c in cases if c["kind"] == k]
         c = ex[len(ex) // 2]
-        ctx.sample({"case": c if k != "lm" else {kk: c[kk] for kk in ("kind", "fam", "B", "c", "a", "d", "stat")}})
+        if k == "seq":
+            ex = [c for c in ex if c["fam"] == "fista" and any(e["act"] == "set" and e["field"] == "A" for e in c["events"])]
+            c = ex[len(ex) // 2]
+        ctx.sample({"case": c if k != "lm" else {kk: c[kk] for kk in ("kind", "fam", "B", "c", "a", "d", "stat")}}, limit=8)
     inf_box = [c for c in cases if c["kind"] == "kkt" and c["h"] == "box" and ("Inf" in c["up"] or "-Inf" in c["lo"])]
     if not inf_box or not any(c["kind"] == "prox" and c["op"] == "box" and ("Inf" in c["up"] or "-Inf" in c["lo"]) for c in cases):
         raise MachineryError("Solvers emitted no box with an infinite bound (prox / kkt): the one-sided facet would be vacuous")
-    ctx.sample({"case": inf_box[len(inf_box) // 2]})
+    ctx.sample({"case": inf_box[len(inf_box) // 2]}, limit=8)
     ctx.rule = ("one case per problem emitted by TLC from Solvers.tla (cg: A, b, x0, shift, P with the exact rational vectors of every "
                 "operator application and the exact solution; prox: lattice input with exact output, boxes with finite / infinite / "
                 "default bounds in every documented way of passing them; kkt: A, b, x*, g, regulariser (incl. one-sided boxes), "
-                "steps; lm: family with its stationary points and starts; wrap: wrapper x method x objective); distinct = problem x "
-                "call-site / operator form / solver variant; trivial (not counted) = cg start that already solves the normal "
-                "equations, prox input that is its own image, proximal-gradient run started at the fixed point, LM start that is "
-                "stationary")
+                "steps; lm: family with its stationary points and starts; wrap: wrapper x method x objective x documented keyword "
+                "arguments; seq: every behaviour of the spec's Solve / SetOp machine of length SeqLen with at most SeqSets "
+                "reassignments of one public operand, one comparison per Solve of the behaviour); distinct = problem x "
+                "call-site / operator form / solver variant (seq: behaviour prefix x form); trivial (not counted) = cg start that "
+                "already solves the normal equations, prox input that is its own image, proximal-gradient run started at the fixed "
+                "point, LM start that is stationary, the first Solve of a sequence on an object nothing was reassigned on")
     ctx.exhaustive = ctx.tier == "quick"      # thorough adds a SAMPLE of the size-3 problems (every Dim3Mod-th matrix)
-    ctx.traces = counts.get("cg", 0)
+    ctx.traces = counts.get("cg", 0) + counts.get("seq", 0)
     ctx.assumptions += ["numpy.linalg.eigvalsh for the strong-convexity constant in the FISTA tolerance",
-                        "SciPy called directly is the reference for the wrapper relation",
+                        "SciPy called directly (fmin_l_bfgs_b / minimize / least_squares, the documented targets) is the reference "
+                        "for the wrapper relation, for default and non-default keyword arguments",
+                        "seq: only plain reassignment of PUBLIC attributes in the form the object was constructed with (matrix stays "
+                        "matrix, callable stays callable); PCGLS keeps its operands in private attributes (Solve only); maximize.func / "
+                        "gradfunc hold negated callables and are not reassigned",
                         "sizes bounded by the cfg; cg problems with iterates beyond MagBound compared through their exact solution"]
 
 
@@ -694,5 +1074,8 @@ def replay(ctx, case):
     elif case["kind"] == "kkt":
         for idx in range(42):
             check_kkt(ctx, S, case, idx, True)
+    elif case["kind"] == "seq":
+        for idx in range(3):                                    # every operator form x way of passing the proximal map
+            check_seq(ctx, S, case, idx)
     else:
         _dispatch(ctx, S, [case], True)
